@@ -120,7 +120,7 @@ def run_C01(tier, seed):
         st = rng.choice(STRATEGIES)
         if st[0] == "min":       # minimal-space expansion alone is not a complete strategy for attractors (MAAs may sit in stubs)
             st = ("aseeds", None)
-        model_ok = st[0] in ("bfs", "dfs", "block")
+        model_ok = st[0] in ("bfs", "dfs", "block", "aseeds")
         cases.append({"rules": rules, "config": {}, "history": [st, ("seeds_all",)], "attr": True, "nomodel": not model_ok, "global_seeds": True})
     cases = load_corpus("C01") + cases
     cases = pmap(P._fix_worker, cases)
